@@ -226,3 +226,55 @@ Fixpoint spec_main_ops (c : tcase) (h : hub) (ops : list top) : bool :=
                       && spec_main_ops c (run_hub h r) ops'
   end.
 Definition spec_main_only (c : tcase) : bool := spec_main_ops c (s_hub (init_state (tc_n c))) (tc_ops c).
+
+(** ** The model's own observations, and the part of a case the model determines *)
+(** the observation the model itself would produce for a run *)
+Definition self_run (r : trun) (evs : list ev) (ok : bool) (job : option tokens) : trun :=
+  mkTR (tr_full r) (tr_fail r) (tr_core r) (tr_mid r) ok (sortN (concat (ev_ents evs)))
+       (map (@length N) (ev_ents evs)) 0 (fst (tok_obs job)) (snd (tok_obs job))
+       (match after_append evs with Some _ => true | None => false end)
+       (match after_append evs with Some l => sortN (concat (ev_ents l)) | None => [] end).
+
+Fixpoint self_ops (v : variant) (c : tcase) (s : state) (ops : list top) : list top :=
+  match ops with
+  | [] => []
+  | o :: ops' =>
+    let '(s', evs, ok) := step v (cfg_of c) s (op_of c o) in
+    (match o with TRun r => TRun (self_run r evs ok (s_job s')) | _ => o end) :: self_ops v c s' ops'
+  end.
+Definition selfobs (v : variant) (c : tcase) : tcase :=
+  mkTC (tc_n c) (tc_main c) (tc_decl c) (tc_latest c) (tc_batch c)
+       (self_ops v c (init_state (tc_n c)) (tc_ops c)) (o_deps c).
+
+(** The implementation's observations with the two things agreement cannot determine replaced by the model's:
+    the marker count (the content of delivered entities is not modelled) and, for runs cut short by a sink
+    failure, WHICH ids had been delivered (the order inside a dependency's result list is not modelled; [agree]
+    compares their number).  Everything else is the implementation's. *)
+Definition ok_run (r : trun) (evs : list ev) : trun :=
+  mkTR (tr_full r) (tr_fail r) (tr_core r) (tr_mid r) (tr_ok r)
+       (if tr_ok r then tr_emitted r else sortN (concat (ev_ents evs)))
+       (tr_calls r) 0 (tr_main r) (tr_deps r) (tr_middone r)
+       (match after_append evs with
+        | Some l => if tr_ok r then tr_late r else sortN (concat (ev_ents l))
+        | None => []
+        end).
+Fixpoint ok_ops (v : variant) (c : tcase) (s : state) (ops : list top) : list top :=
+  match ops with
+  | [] => []
+  | o :: ops' =>
+    let '(s', evs, ok) := step v (cfg_of c) s (op_of c o) in
+    (match o with TRun r => TRun (ok_run r evs) | _ => o end) :: ok_ops v c s' ops'
+  end.
+Definition okobs (v : variant) (c : tcase) : tcase :=
+  mkTC (tc_n c) (tc_main c) (tc_decl c) (tc_latest c) (tc_batch c)
+       (ok_ops v c (init_state (tc_n c)) (tc_ops c)) (o_deps c).
+
+(** well-formed case: batch size >= 1; a scripted write during a run goes with a full sync and not to the main dataset *)
+Definition wf_run (c : tcase) (r : trun) : bool :=
+  match tr_mid r with
+  | Some (_, ds, _) => tr_full r && negb (Nat.eqb ds (tc_main c))
+  | None => true
+  end.
+Definition wf_case (c : tcase) : bool :=
+  Nat.leb 1 (tc_batch c)
+  && forallb (fun o => match o with TRun r => wf_run c r | _ => true end) (tc_ops c).
